@@ -45,7 +45,8 @@ class Transform(data_input.DataInputAbstract, Numbered_MCNP_Object):
             # the entries after shortcut expansion (one per value), not the syntax nodes
             words = list(self._tree["data"])
             for word in words:
-                if not isinstance(word.value, (int, float)):
+                # a jump leaves its entry at the default: no displacement, no rotation, main to auxiliary
+                if word.value is not None and not isinstance(word.value, (int, float)):
                     raise MalformedInputError(
                         input,
                         f"A transform input holds numbers only; {word.value} was given",
@@ -67,10 +68,18 @@ class Transform(data_input.DataInputAbstract, Numbered_MCNP_Object):
             self._old_number = copy.deepcopy(self._number)
 
             # parse displacement
-            self._displacement_vector = np.array([word.value for word in words[:3]])
+            self._displacement_vector = np.array(
+                [
+                    self._default_entry(k) if word.value is None else word.value
+                    for k, word in enumerate(words[:3])
+                ]
+            )
 
             # parse rotation
-            values = [word.value for word in words[3:12]]
+            values = [
+                self._default_entry(k + 3) if word.value is None else word.value
+                for k, word in enumerate(words[3:12])
+            ]
             i = 3 + len(values)
             self._rotation_matrix = np.array(values)
 
@@ -78,6 +87,9 @@ class Transform(data_input.DataInputAbstract, Numbered_MCNP_Object):
             if len(values) == 9:
                 try:
                     word = words[i]
+                    if word.value is None:
+                        # a jump: main to auxiliary, the default
+                        raise IndexError
                     word.is_negatable_identifier = True
                     if word.value != 1:
                         raise MalformedInputError(
@@ -88,6 +100,21 @@ class Transform(data_input.DataInputAbstract, Numbered_MCNP_Object):
                 # if no more words remain don't worry
                 except IndexError:
                     pass
+
+    def _default_entry(self, position):
+        """
+        The value MCNP takes for an entry that is jumped over: no displacement and no rotation.
+
+        :param position: the position of the entry among the 12 numbers (0-2 displacement, 3-11 rotation).
+        :type position: int
+        :rtype: float
+        """
+        if position < 3:
+            return 0.0
+        on_diagonal = (position - 3) % 4 == 0
+        if self._is_in_degrees:
+            return 0.0 if on_diagonal else 90.0
+        return 1.0 if on_diagonal else 0.0
 
     @staticmethod
     def _class_prefix():
@@ -208,8 +235,10 @@ class Transform(data_input.DataInputAbstract, Numbered_MCNP_Object):
         new_values = []
         list_iter = iter(self.data)
         length = len(self.data)
-        for value, node in zip(self.displacement_vector, list_iter):
-            node.value = value
+        for k, (value, node) in enumerate(zip(self.displacement_vector, list_iter)):
+            # a jump stays a jump while its entry has the default value
+            if not (node.value is None and value == self._default_entry(k)):
+                node.value = value
             new_values.append(node)
         # update the rotation matrix
         # test if the rotation matrix has info, or was specified or main_to_aux is needed
@@ -229,7 +258,8 @@ class Transform(data_input.DataInputAbstract, Numbered_MCNP_Object):
                     flat_pack = np.array([1.0, 0.0, 0.0, 0.0, 1.0, 0.0, 0.0, 0.0, 1.0])
             i = -1
             for i, (value, node) in enumerate(zip(flat_pack, list_iter)):
-                node.value = value
+                if not (node.value is None and value == self._default_entry(i + 3)):
+                    node.value = value
                 new_values.append(node)
             if i < len(flat_pack) - 1:
                 for value in flat_pack[i + 1 :]:
